@@ -135,6 +135,27 @@ impl PartialOrd for Fl {
     w("  #[verifier::external_body] pub fn is_negative(&self) -> (r: bool) ensures r == is_negative_r(self@) { unimplemented!() }\n")
     w("  #[verifier::external_body] pub fn eq(&self, o: &Sc) -> (r: bool) ensures r == (self@ == o@) { unimplemented!() }\n")
     w("}\n")
+    # ---- axioms on the uninterpreted real functions (each is an assumption; listed in the evidence)
+    w("""
+pub proof fn ax_recip(x: real) requires x != 0real ensures x * recip_r(x) == 1real { admit(); }
+pub proof fn ax_sqrt(x: real) requires x >= 0real ensures sqrt_r(x) * sqrt_r(x) == x, sqrt_r(x) >= 0real { admit(); }
+pub proof fn ax_cbrt(x: real) ensures cbrt_r(x) * cbrt_r(x) * cbrt_r(x) == x { admit(); }
+pub proof fn ax_sin_cos(x: real) ensures sin_r(x) * sin_r(x) + cos_r(x) * cos_r(x) == 1real { admit(); }
+pub proof fn ax_cosh_sinh(x: real) ensures cosh_r(x) * cosh_r(x) - sinh_r(x) * sinh_r(x) == 1real, cosh_r(x) > 0real { admit(); }
+pub proof fn ax_powi_0(x: real) ensures powi_r(x, 0) == 1real { admit(); }
+pub proof fn ax_powi_step(x: real, k: int) requires x != 0real || k >= 0 ensures powi_r(x, k + 1) == powi_r(x, k) * x { admit(); }
+pub proof fn ax_powf_0(x: real) requires x > 0real ensures powf_r(x, 0real) == 1real { admit(); }
+pub proof fn ax_powf_step(x: real, a: real) requires x > 0real ensures powf_r(x, a + 1real) == powf_r(x, a) * x, powf_r(x, a) > 0real { admit(); }
+pub proof fn ax_powf_int(x: real, n: int) requires x > 0real ensures powf_r(x, n as real) == powi_r(x, n) { admit(); }
+pub proof fn ax_exp_ln(x: real) requires x > 0real ensures exp_r(ln_r(x)) == x { admit(); }
+pub proof fn ax_tan(x: real) requires cos_r(x) != 0real ensures tan_r(x) * cos_r(x) == sin_r(x) { admit(); }
+pub proof fn ax_tanh(x: real) ensures tanh_r(x) * cosh_r(x) == sinh_r(x) { admit(); }
+pub proof fn ax_expm1(x: real) ensures expm1_r(x) == exp_r(x) - 1real { admit(); }
+pub proof fn ax_ln1p(x: real) requires x > -1real ensures ln1p_r(x) == ln_r(1real + x) { admit(); }
+pub proof fn ax_sign(x: real) ensures x > 0real ==> is_positive_r(x) && !is_negative_r(x), x < 0real ==> is_negative_r(x) && !is_positive_r(x) { admit(); }
+// float-grid fact used by the powf branch |n-2| < eps  (DESIGN.md §2.2)
+pub proof fn ax_float_grid_two(n: real) requires abs_r(n - 2real) < eps_r() ensures n == 2real { admit(); }
+""")
     return "".join(o)
 
 
